@@ -235,6 +235,12 @@ def edited_path_prints(ctx, parser, p, s):
             if got2 != (new_sel, comps):
                 ctx.violate('print-after-edit/add-component', 'parse(%r), printed, a component added: prints as %r which parses to %r'
                             % (s, t2, got2), dict(string=s, edit='add_component'))
+        # the result a caller holds is the caller's: editing it does not change what the parser answers for the same string
+        again = parser.parse(s)
+        ctx.count('reparsed_after_edit_of_first_result')
+        if again is p or structure_of(again) != before:
+            ctx.violate('parse-after-edit-of-earlier-result', 'parse(%r) after the path returned by the first parse(%r) had been edited gives %r, '
+                        'the first time %r' % (s, s, structure_of(again), before), dict(string=s, edit='then parsed again'))
     except Exception as e:
         ctx.violate('print-after-edit/raises:%s' % type(e).__name__, 'editing and printing parse(%r) raised %r' % (s, e),
                     dict(string=s, edit='subset_slice/add_component'), exc=e)
